@@ -14,6 +14,9 @@ import (
 	"github.com/NethermindEth/juno/core/felt"
 	"github.com/NethermindEth/juno/core/trie"
 	"github.com/NethermindEth/juno/core/trie2"
+	"github.com/NethermindEth/juno/core/trie2/triedb/rawdb"
+	"github.com/NethermindEth/juno/core/trie2/trienode"
+	"github.com/NethermindEth/juno/core/trie2/trieutils"
 	"github.com/NethermindEth/juno/db"
 	"github.com/NethermindEth/juno/db/memory"
 	"verifharness/chain"
@@ -77,6 +80,80 @@ func runTrie2(c trieCase) ([]string, error) {
 			return nil, err
 		}
 		res = append(res, h.String())
+	}
+	return res, nil
+}
+
+// roots after every op on a PERSISTENT trie2 (class-trie id over the raw trie database on db/memory): zero writes
+// alternate between Update(k,0) and Delete(k), the trie is committed through its collector / node tracer and
+// re-opened from the database at the case's reopen points (and always at the end), and after the last re-open
+// every key ever written is read back with Get and compared with the key/value set the ops describe
+func runTrie2DB(c trieCase) ([]string, error) {
+	disk := memory.New()
+	tdb := rawdb.New(disk)
+	root := felt.Zero
+	open := func() (*trie2.Trie, error) {
+		return trie2.New(trieutils.NewClassTrieID(felt.StateRootHash(root)), uint8(c.Height), hashFn(c.Hash), tdb)
+	}
+	t, err := open()
+	if err != nil {
+		return nil, err
+	}
+	reopen := map[int]bool{len(c.Ops) - 1: true}
+	for _, i := range c.Reopen {
+		reopen[i] = true
+	}
+	want := map[string]felt.Felt{}
+	var res []string
+	for i, o := range c.Ops {
+		k, v := parseOp(o)
+		if v.IsZero() && i%2 == 1 {
+			err = t.Delete(&k)
+		} else {
+			err = t.Update(&k, &v)
+		}
+		if err != nil {
+			return nil, fmt.Errorf("op %d: %w", i, err)
+		}
+		want[k.String()] = v
+		h, err := t.Hash()
+		if err != nil {
+			return nil, err
+		}
+		res = append(res, h.String())
+		if reopen[i] {
+			newRoot, nodes := t.Commit()
+			if newRoot.String() != h.String() {
+				return nil, fmt.Errorf("op %d: Commit returns root %s after Hash returned %s", i, newRoot.String(), h.String())
+			}
+			if nodes != nil {
+				batch := disk.NewBatch()
+				nr, pr := felt.StateRootHash(newRoot), felt.StateRootHash(root)
+				if err := tdb.Update(&nr, &pr, uint64(i), trienode.NewMergeNodeSet(nodes), nil, batch); err != nil {
+					return nil, err
+				}
+				if err := batch.Write(); err != nil {
+					return nil, err
+				}
+			}
+			root = newRoot
+			if t, err = open(); err != nil {
+				return nil, fmt.Errorf("reopen after op %d: %w", i, err)
+			}
+			if h2, _ := t.Hash(); h2.String() != h.String() {
+				return nil, fmt.Errorf("reopened trie after op %d has root %s, committed %s", i, h2.String(), h.String())
+			}
+		}
+	}
+	for _, o := range c.Ops {
+		k, _ := parseOp(o)
+		got, err := t.Get(&k)
+		if err != nil {
+			return nil, fmt.Errorf("Get(%s) after the last reopen: %w", k.String(), err)
+		}
+		if w := want[k.String()]; !got.Equal(&w) {
+			return nil, fmt.Errorf("Get(%s) after the last reopen = %s, the key/value set has %s", k.String(), got.String(), w.String())
+		}
 	}
 	return res, nil
 }
@@ -341,6 +418,17 @@ func genTrieCase(r *hx.RNG) trieCase {
 		universe = append(universe, big.NewInt(0), new(big.Int).Sub(max, big.NewInt(1)))
 	}
 	n := 1 + r.Intn(30)
+	if r.Chance(3) {
+		// big batch: more than 100 updates between two commits (trie2 commits those through its parallel
+		// collector), over a wider universe so that the upper levels branch
+		for i := 0; i < 60; i++ {
+			x := new(big.Int).SetUint64(r.U64())
+			x.Lsh(x, uint(r.Intn(c.Height)))
+			universe = append(universe, x.Mod(x, max))
+		}
+		n = 110 + r.Intn(120)
+	}
+	big1 := n > 100
 	for i := 0; i < n; i++ {
 		k := universe[r.Intn(len(universe))]
 		v := big.NewInt(int64(1 + r.Intn(5)))
@@ -348,7 +436,7 @@ func genTrieCase(r *hx.RNG) trieCase {
 			v = big.NewInt(0) // delete / zero write (present or absent key)
 		}
 		c.Ops = append(c.Ops, fmt.Sprintf("%x:%x", k, v))
-		if r.Chance(15) {
+		if (!big1 && r.Chance(15)) || (big1 && i > 104 && r.Chance(4)) {
 			c.Reopen = append(c.Reopen, i)
 		}
 	}
@@ -393,6 +481,16 @@ func evalTrieCase(or *hx.Oracle, c trieCase) (*trieVerdict, map[string]any) {
 		return &trieVerdict{"legacy-trie-error", err.Error()}, obs
 	}
 	obs["trie2"], obs["legacy"] = t2, lg
+	t2db, err := runTrie2DB(c)
+	if err != nil {
+		return &trieVerdict{"trie2-persistent-error", err.Error()}, obs
+	}
+	obs["trie2_persistent"] = t2db
+	for i := range t2db {
+		if t2db[i] != model[i] {
+			return &trieVerdict{"trie2-persistent-vs-model", fmt.Sprintf("root after op %d: persistent trie2 (commit+reopen at %v) %s model %s", i, c.Reopen, t2db[i], model[i])}, obs
+		}
+	}
 	if canon != "t" {
 		return &trieVerdict{"model-not-canonical", "the transcription of trie2 insert/delete left canonical form (theorem update_canon would be violated)"}, obs
 	}
@@ -788,6 +886,9 @@ func main() {
 			}
 		}
 		c.Hist["trie_ops"] += len(tc.Ops)
+		if len(tc.Ops) > 100 {
+			c.Hist["trie_cases_over_100_ops_before_a_commit"]++
+		}
 		c.Hist["trie_zero_writes"] += dels
 		c.Hist["trie1_puts_without_hash"] += len(tc.NoHash)
 		c.Count(tc.line(), len(tc.Ops) >= 3)
@@ -835,6 +936,6 @@ func main() {
 	c.Hist["trie1_stored_nodes_compared"] = trie1NodesCompared
 	c.Hist["trie1_roots_compared"] = trie1RootsCompared
 	c.Finish("trie op sequences (heights 3/8/64/251, Pedersen+Poseidon, keys sharing long prefixes, ~30% zero writes, legacy trie committed+reopened at random points) " +
-		"checked on trie2, legacy trie and both temp-trie backends against the model's per-op root terms and the spec root; the legacy trie additionally against its own transcription Trie1 (Hash() after a random subset of the Puts: root, root key, the set of stored node keys with child links read from the database, every stored value; Trie1 root TERM == Trie2 root TERM); state diff chains (deploy/replace/nonce/storage incl. zero writes, wipes and >100-slot bulk writes/Sierra declarations/CASM-hash migrations incl. migration-only blocks/system contracts 0x1,0x2) on both state backends with restarts, " +
+		"checked on trie2 (in memory, and persistent over the raw trie database with Update/Delete, commit through collector+tracer, reopen, Get of every key), legacy trie and both temp-trie backends against the model's per-op root terms and the spec root; the legacy trie additionally against its own transcription Trie1 (Hash() after a random subset of the Puts: root, root key, the set of stored node keys with child links read from the database, every stored value; Trie1 root TERM == Trie2 root TERM); state diff chains (deploy/replace/nonce/storage incl. zero writes, wipes and >100-slot bulk writes/Sierra declarations/CASM-hash migrations incl. migration-only blocks/system contracts 0x1,0x2) on both state backends with restarts, " +
 		"<0.14.0 and >=0.14.0 formulas; non-trivial = at least 3 trie ops or any state chain; distinct by full case")
 }
